@@ -924,6 +924,17 @@ pub fn drive_codec(t: &mut Tracer, tier: &str, seed: u64) {
         shapes.push((format!("x-lead0x{}", z), search_k(&mut rng, false, z, 400000)));
         shapes.push((format!("y-lead0x{}", z), search_k(&mut rng, true, z, 400000)));
     }
+    // one leading zero byte followed by a byte >= 0x80 (the DER INTEGER needs its sign octet although a byte was dropped) and by a byte < 0x80
+    for (want_y, hi) in [(false, true), (false, false), (true, true), (true, false)] {
+        let mut found = None;
+        for _ in 0..400000 {
+            let mut k = rng.bytes(32); k[0] &= 0x7f;
+            let p = g_mul(&be_u256(&k)).to_byte_be(false);
+            let c = if want_y { &p[33..65] } else { &p[1..33] };
+            if c[0] == 0 && c[1] != 0 && (c[1] >= 0x80) == hi { found = Some(b32(&k)); break; }
+        }
+        shapes.push((format!("{}-lead0-next{}", if want_y { "y" } else { "x" }, if hi { "hi" } else { "lo" }), found));
+    }
     // pre-computed scalars (found once with `gmverif findk`): [k]G has two leading zero bytes in x resp. y; re-checked here before use
     for (name, khex, want_y) in [("x-lead0x2", "5e00711dcecea98cdf20e3820067019b0b56766bab3f7c379adb20d426ca8d0f", false), ("y-lead0x2", "7b3b4f0229243dd52ea81dc91439d4611b5ee9fce711bd355a0bf02924bffee8", true)] {
         let k = hexb(khex);
@@ -953,6 +964,32 @@ pub fn drive_codec(t: &mut Tracer, tier: &str, seed: u64) {
     let m = rng.bytes(20);
     asn1_enc_event(t, &sess(), &key, &m, vec![], "alt-flags", true, "c1c3c2");
     asn1_enc_event(t, &sess(), &key, &m, vec![], "alt-flags", false, "c1c2c3");
+}
+
+/// operand pairs (a, b, op) with a, b < m such that the RAW 256-bit result (a - b mod 2^256 for "sub", a + b mod 2^256 for "add") has every 64-bit
+/// limb taken from {0, 1, 2^32-1, 2^32, 2^64-1}: b is random, a is solved for; `stride` thins the 625 patterns
+pub fn limb_pattern_pairs(rng: &mut Rng, modulus_hex: &str, stride: usize) -> Vec<(Vec<u8>, Vec<u8>, &'static str)> {
+    let m = hexb(modulus_hex);
+    let vals: [u64; 5] = [0, 1, 0xffff_ffff, 1 << 32, u64::MAX];
+    let add256 = |x: &[u8], y: &[u8]| -> Vec<u8> { let mut o = vec![0u8; 32]; let mut c = 0u16; for i in (0..32).rev() { let s = x[i] as u16 + y[i] as u16 + c; o[i] = s as u8; c = s >> 8; } o };
+    let sub256 = |x: &[u8], y: &[u8]| -> Vec<u8> { let mut o = vec![0u8; 32]; let mut br = 0i16; for i in (0..32).rev() { let d = x[i] as i16 - y[i] as i16 - br; if d < 0 { o[i] = (d + 256) as u8; br = 1; } else { o[i] = d as u8; br = 0; } } o };
+    let mut out = vec![];
+    let mut n = 0usize;
+    for l3 in vals { for l2 in vals { for l1 in vals { for l0 in vals {
+        n += 1;
+        if n % stride != 0 { continue; }
+        let d: Vec<u8> = [l3, l2, l1, l0].iter().flat_map(|x| x.to_be_bytes()).collect();
+        // a few b per pattern: random canonical values, one near the modulus, one small
+        for which in 0..2 {
+            let mut b = rng.bytes(32); if which == 1 { b = be_add_small(&m, -(1 + rng.below(1000) as i64)); }
+            if b.as_slice() >= m.as_slice() { b[0] = 0; }
+            let a = add256(&b, &d);                                   // a - b = d (mod 2^256)
+            if a.as_slice() < m.as_slice() { out.push((a, b.clone(), "sub")); }
+            let a2 = sub256(&d, &b);                                  // a2 + b = d (mod 2^256)
+            if a2.as_slice() < m.as_slice() { out.push((a2, b, "add")); }
+        }
+    } } } }
+    out
 }
 
 // ---------------------------------------------------------------- C11 group law / field arithmetic
@@ -1118,6 +1155,15 @@ pub fn drive_ec(t: &mut Tracer, tier: &str, seed: u64, plan: Option<String>) {
             let o = gp(|| if f == "add" { verif::fn_add(&au, &bu) } else { verif::fn_mul(&au, &bu) });
             let ob = o.ok().map(|x| u256_be(x)).unwrap_or(vec![0u8; 32]);
             t.emit(&sess(), "fn.op", json!({"prop": "C11", "f": f, "cls": "planned-window", "a": bytes(&a), "b": bytes(&b), "out": bytes(&ob), "outcome": o.name(), "detail": o.detail()}));
+        }
+    }
+    // ---- raw sums / differences with patterned limbs (carry / borrow chains of the modular corrections), modulo p and modulo n ----
+    for (mhex, is_p) in [(P_HEX, true), (N_HEX, false)] {
+        for (a, b, f) in limb_pattern_pairs(&mut rng, mhex, if thorough { 1 } else { 2 }) {
+            let (au, bu) = (be_u256(&a), be_u256(&b));
+            let o = gp(|| match (is_p, f) { (true, "add") => verif::fp_add(&au, &bu), (true, _) => verif::fp_sub(&au, &bu), (false, "add") => verif::fn_add(&au, &bu), _ => verif::fn_sub(&au, &bu) });
+            let ob = o.ok().map(|x| u256_be(x)).unwrap_or(vec![0u8; 32]);
+            t.emit(&sess(), if is_p { "fp.op" } else { "fn.op" }, json!({"prop": "C11", "f": f, "cls": "limb-pattern", "a": bytes(&a), "b": bytes(&b), "out": bytes(&ob), "outcome": o.name(), "detail": o.detail()}));
         }
     }
     // ---- the fixed-base table: all 32 x 255 entries, one session (exhaustive in both tiers) ----
